@@ -608,7 +608,9 @@ def u_multicategorical(ctx, which):
                     continue
                 judge(form, dims, P[0], o, support, "eager")
     # a component with more than 128 classes
-    for dims in ([(3, 200)] if ctx.quick else [(3, 200), (129, 2), (2, 300)]):
+    # ... and laws whose components all fit int8 (<= 128 classes) while the concatenated parameter vector is
+    # longer than 128 (int8 samples are then legitimate, but index arithmetic on them must not wrap)
+    for dims in ([(3, 200), (100, 100)] if ctx.quick else [(3, 200), (129, 2), (2, 300), (100, 100), (127, 2, 2), (70, 70)]):
         for form in ("flat-logits", "seq-probs"):
             if not form.startswith(which):
                 continue
